@@ -3,13 +3,15 @@
 -/
 import Driver.FwRun
 import MbVerif.Spec.C04
+import MbVerif.Spec.C02
+import MbVerif.Spec.C03
 
 namespace Driver
 open Mb
 
 /-- all framework-level monitors: (property id, failure description) -/
 def fwMonitors (t : FwTrace) : List (String × Option String) :=
-  [ ("C04", C04.monitor t) ]
+  [ ("C04", C04.monitor t), ("C02", C02.monitor t), ("C03", C03.monitor t) ]
 
 def hasEv (t : FwTrace) (ev : Nat) : Bool :=
   t.calls.any (fun c => c.log.any (fun e => match e with
